@@ -379,7 +379,9 @@ class ScipyOptimizeDriver(Driver):
                         for j in range(size):
                             # TODO add option for Hessian
                             # Double-sided constraints are accepted by the algorithm
-                            args = [name, False, j]
+                            # dbl=None marks a new-style constraint: scipy gets the raw value and
+                            # the raw gradient together with the lower and upper bounds
+                            args = [name, None, j]
                             lb_j = np.maximum(lb[j], -INF_BOUND)
                             ub_j = np.minimum(ub[j], INF_BOUND)
                             con = NonlinearConstraint(
@@ -765,6 +767,10 @@ class ScipyOptimizeDriver(Driver):
             grad = self._grad_cache
 
         grad_idx = self._con_idx[name] + idx
+
+        if dbl is None:
+            # new-style constraint: no sign convention to apply
+            return grad[grad_idx, :].copy()
 
         # Equality constraints
         if meta['equals'] is not None:
